@@ -71,8 +71,9 @@ def name_idempotence(ctx: Ctx, rule: str) -> None:
                   witness=f"t = div(**{{{w!r}: 'v'}}); list(t.attrs) vs str(t)")
 
 
-def name_pipeline(ctx: Ctx) -> None:
-    info = attrmodel.normalize_name_pipeline(ctx.prog)
+def name_pipeline(ctx: Ctx, rule: str = "C15.name", mod: str = CORE, qual: str = "TagAttrDict._normalize_attr_name") -> None:
+    info = attrmodel.normalize_name_pipeline(ctx.prog, mod, qual)
+    NN = f"{mod}:{qual}"
     for d in info["decorators"]:
         ctx.require(d.split("(")[0].split(".")[-1] == "staticmethod", f"_normalize_attr_name: decorator @{d} not modelled")
     paths = info["paths"]
@@ -97,9 +98,50 @@ def name_pipeline(ctx: Ctx) -> None:
                 hits.append(eval_sstr(p["value"], b))
         ctx.require(len(hits) == 1, f"_normalize_attr_name: {len(hits)} paths apply to the name {w!r}")
         want = spec_name(w)
-        ctx.check(hits[0] == want, "C15.name", f"name {w!r} -> {want!r}", NN, f"{w!r} -> {hits[0]!r}",
+        ctx.check(hits[0] == want, rule, f"name {w!r} -> {want!r}", NN, f"{w!r} -> {hits[0]!r}",
                   f"the attribute name {w!r} is normalised to {hits[0]!r}; the rule (one trailing underscore removed, remaining "
                   f"underscores to hyphens) gives {want!r}", witness=f"div(**{{{w!r}: 'v'}}) / tag.attrs[{w!r}] = 'v'")
+
+
+def setitem_key(ctx: Ctx, rule: str, mod: str = CORE, cls: str = "TagAttrDict", value_as_given: bool = False) -> None:
+    """`d[name] = value` stores under the normalised name (an assignment under the raw name leaves a second, differently spelled
+    entry next to the one the constructor / update() wrote)."""
+    from ..interp import Config, Interp
+    from ..values import SOpaque
+    prog = ctx.prog
+    q = f"{cls}.__setitem__"
+    fn = prog.function(mod, q)
+    ps = [a.arg for a in fn.args.args]
+    ctx.require(len(ps) == 3, f"{q} signature changed")
+    where = f"{mod}:{q}"
+    cfg = Config()
+    cfg.opaque_all = True
+    kind = "TAGATTRDICT" if cls == "TagAttrDict" else "JSXATTRDICT"
+
+    def mk(run: Any):
+        s_ = SObj("self", {kind})
+        nm, v = SObj("name", {"STR"}), SObj("value", attrmodel.ANY_VALUE_KINDS)
+        run.__dict__["o"] = (nm, v)
+        return ({ps[0]: s_, ps[1]: nm, ps[2]: v}, s_)
+
+    n = 0
+    for l in Interp(prog).run_function(mod, q, mk, cfg):
+        nm, v = l.run.__dict__["o"]
+        for e in l.effects:
+            if e.kind == "basecall" and str(e.key).endswith("__setitem__") and e.value and len(e.value) == 2:
+                key, val = e.value
+            elif e.kind == "store_item" and getattr(e.target, "name", "") == "self":
+                key, val = e.key, e.value
+            else:
+                continue
+            n += 1
+            ctx.check(key is not nm, rule, "item assignment stores under the normalised name", where, f"stores under {short(key)}",
+                      f"`d[name] = value` stores the value under the name as given ({short(key)}), not under its normalised form: `attrs['class_'] = v` "
+                      f"adds an entry `class_` instead of replacing `class`", witness="t = div(class_='a'); t.attrs['class_'] = 'b'")
+            if value_as_given:
+                ctx.check(val is v, rule, "item assignment stores the value as given", where, f"stores {short(val)}",
+                          f"`d[name] = value` stores {short(val)} instead of the value")
+    ctx.min_count(f"{q} stores", n, 1)
 
 
 def init_delegates(ctx: Ctx) -> None:
@@ -411,4 +453,5 @@ def check(ctx: Ctx) -> None:
     init_delegates(ctx)
     update_obligations(ctx)
     setitem_obligations(ctx, "C15")
+    setitem_key(ctx, "C15.setitem")
     partition_obligations(ctx)
